@@ -25,7 +25,12 @@ type (
 	URLCall   = runtime.VerifC05URLCall
 	URLState  = runtime.VerifC05URLState
 	CallShape = runtime.VerifC05CallShape
+	ProbeData = runtime.VerifC05ProbeData
 )
+
+// Probe returns the register stack state of the traced run in progress; it
+// must be called from a native function with no parameters and no results.
+func Probe() ProbeData { return runtime.VerifC05Probe() }
 
 // RunProgram executes p through the real interpreter loop, recording faults.
 func RunProgram(p *scriggo.Program, print scriggo.PrintFunc) Result {
